@@ -1,9 +1,263 @@
 (* Props/C11.v — mailbox namespace commands behave as the reference model says.
-   Only statements, each closed by [exact] and followed by Print Assumptions. *)
-From PV Require Import Base.Prelude Namespace.Glob Namespace.GlobProofs.
+   Only statements, each closed by [exact] and followed by Print Assumptions.
 
-(* the regular expression ListTree._get_pattern builds denotes exactly the
-   RFC 3501 wildcard matcher, for every pattern and every name *)
+   [model_match] is what the regular expression of ListTree._get_pattern
+   denotes, [rfc_match] the RFC 3501 6.3.8 matcher, [glob_denotes] its
+   declarative reading; [tupdate]/[tmatching] model ListTree; [dstep] is the
+   dict backend behind pymap/imap/state.py, [mstep] the maildir backend;
+   [in_closure names p] : p is one of the names cut at a hierarchy delimiter. *)
+From PV Require Import Base.Prelude Namespace.Glob Namespace.GlobProofs Namespace.NsBase
+     Namespace.NsBaseProofs Namespace.ListTree Namespace.ListTreeProofs Namespace.NsModel
+     Namespace.NsProofs Namespace.MdModel Namespace.MdProofs.
+
+(* ---- (a) pattern matching *)
 Theorem glob_correct : forall pat name, model_match pat name = rfc_match pat name.
 Proof. exact glob_correct_cs. Qed.
 Print Assumptions glob_correct.
+
+(* the entry INBOX: both sides fold ASCII case *)
+Theorem glob_inbox_correct : forall pat name, model_match_ci pat name = rfc_match_ci pat name.
+Proof. exact glob_correct_ci. Qed.
+Print Assumptions glob_inbox_correct.
+
+(* the boolean RFC matcher is the declarative one: the name is cut into one
+   piece per pattern character, "*" any piece, "%" a piece without delimiter *)
+Theorem rfc_match_spec : forall pat s, rfc_match pat s = true <-> glob_denotes pat s.
+Proof. exact rfc_match_denotes. Qed.
+Print Assumptions rfc_match_spec.
+
+(* the pattern of the code before the fix (no DOTALL, '$') *)
+Theorem glob_legacy_refuted : exists pat name, legacy_match pat name <> rfc_match pat name.
+Proof. exact legacy_newline_refuted. Qed.
+Print Assumptions glob_legacy_refuted.
+
+(* ---- (b) LIST: exactly the existing names (and their superiors, marked
+   \Noselect) that match, each once, with the right attributes *)
+Theorem list_exact : forall names q,
+  let l := tmatching (tupdate names) q in
+  (forall e, In e l ->
+     in_closure names (e_name e) /\ entry_matches q (e_name e) = true
+     /\ (e_exists e = true <-> In (e_name e) names)
+     /\ (e_children e = true <-> exists m, in_closure names m /\ inferior (e_name e) m))
+  /\ (forall p, in_closure names p -> entry_matches q p = true -> exists e, In e l /\ e_name e = p)
+  /\ NoDup (map e_name l).
+Proof. exact list_exact_names. Qed.
+Print Assumptions list_exact.
+
+(* the LIST / LSUB commands of both backends are that function of the
+   existing / subscribed names, and change nothing *)
+Theorem list_cmd_dict : forall uid0 st ref pat, pat <> [] ->
+  let out := snd (dstep uid0 st (OList ref pat)) in
+  fst (dstep uid0 st (OList ref pat)) = st /\ o_cond out = COk
+  /\ o_list out = map (fun e => (e_name e, attrs e)) (tmatching (tupdate (dnames st)) (norm ref ++ pat)).
+Proof. exact d_list_exact. Qed.
+Print Assumptions list_cmd_dict.
+
+Theorem lsub_exact : forall uid0 st ref pat, pat <> [] ->
+  let out := snd (dstep uid0 st (OLsub ref pat)) in
+  fst (dstep uid0 st (OLsub ref pat)) = st /\ o_cond out = COk
+  /\ o_list out = map (fun e => (e_name e, attrs e))
+                      (tmatching (tupdate (INBOX :: subscribed st)) (norm ref ++ pat)).
+Proof. exact d_lsub_exact. Qed.
+Print Assumptions lsub_exact.
+
+(* ... whose name set is the closure of the subscribed names when INBOX is
+   subscribed; in general INBOX is listed too (open finding C11-F1) *)
+Theorem lsub_names_when_inbox_subscribed : forall names n p,
+  In n names -> (in_closure (n :: names) p <-> in_closure names p).
+Proof. exact closure_cons_mem. Qed.
+Print Assumptions lsub_names_when_inbox_subscribed.
+
+Theorem lsub_inbox_refuted :
+  exists st ref pat, dinv st /\ subscribed st = [] /\
+    o_list (snd (dstep 101 st (OLsub ref pat))) = [(INBOX, [3%N])].
+Proof. exact NsProofs.lsub_inbox_refuted. Qed.
+Print Assumptions lsub_inbox_refuted.
+
+Theorem subscribed_is_lookup : forall st n, NoDup (map fst (d_subs st)) ->
+  (In n (subscribed st) <-> alookup n (d_subs st) = Some true).
+Proof. exact subscribed_spec. Qed.
+Print Assumptions subscribed_is_lookup.
+
+Theorem subscribe_spec : forall uid0 st n0 (flag : bool),
+  let o := if flag then OSubscribe n0 else OUnsubscribe n0 in
+  let st' := fst (dstep uid0 st o) in
+  o_cond (snd (dstep uid0 st o)) = COk
+  /\ alookup (norm n0) (d_subs st') = Some flag
+  /\ (forall m, m <> norm n0 -> alookup m (d_subs st') = alookup m (d_subs st))
+  /\ d_set st' = d_set st /\ d_inbox st' = d_inbox st.
+Proof. exact d_subscribe_spec. Qed.
+Print Assumptions subscribe_spec.
+
+Theorem list_cmd_maildir : forall uid0 lay st ref pat, pat <> [] ->
+  let out := snd (mstep uid0 lay st (OList ref pat)) in
+  fst (mstep uid0 lay st (OList ref pat)) = st /\ o_cond out = COk
+  /\ o_list out = map (fun e => (e_name e, attrs e))
+                      (tmatching (tupdate (INBOX :: folder_names st)) (norm ref ++ pat)).
+Proof. exact m_list_exact. Qed.
+Print Assumptions list_cmd_maildir.
+
+Theorem lsub_cmd_maildir : forall uid0 lay st ref pat, pat <> [] ->
+  let out := snd (mstep uid0 lay st (OLsub ref pat)) in
+  fst (mstep uid0 lay st (OLsub ref pat)) = st /\ o_cond out = COk
+  /\ o_list out = map (fun e => (e_name e, attrs e))
+                      (tmatching (tupdate (INBOX :: x_subs st)) (norm ref ++ pat)).
+Proof. exact m_lsub_exact. Qed.
+Print Assumptions lsub_cmd_maildir.
+
+(* ---- RENAME *)
+(* dict: the mailbox and every inferior move to the new name with their
+   contents (identity, messages, UIDNEXT); names outside stay; the old names
+   are gone.  [sfx rest] is '/p1/p2...' *)
+Theorem rename_moves_subtree : forall uid0 st a0 b0,
+  dinv st -> norm a0 <> INBOX ->
+  o_cond (snd (dstep uid0 st (ORename a0 b0))) = COk ->
+  let a := norm a0 in let b := norm b0 in
+  let st' := fst (dstep uid0 st (ORename a0 b0)) in
+  (forall rest, Forall nodelim rest ->
+                alookup (b ++ sfx rest) (d_set st') = alookup (a ++ sfx rest) (d_set st))
+  /\ (forall m, ~ bprefix a m -> ~ bprefix b m -> alookup m (d_set st') = alookup m (d_set st))
+  /\ (forall m, bprefix a m -> ~ bprefix b m -> alookup m (d_set st') = None)
+  /\ d_inbox st' = d_inbox st /\ d_subs st' = d_subs st
+  /\ in_closure (dnames st) a /\ ~ in_closure (dnames st) b /\ b <> INBOX.
+Proof. exact d_rename_spec. Qed.
+Print Assumptions rename_moves_subtree.
+
+Theorem bprefix_is_sfx : forall a m, bprefix a m <-> exists rest, Forall nodelim rest /\ m = a ++ sfx rest.
+Proof. exact bprefix_sfx. Qed.
+Print Assumptions bprefix_is_sfx.
+
+(* renaming INBOX moves its contents and leaves a fresh empty INBOX; nothing
+   else (in particular no inferior of INBOX) changes *)
+Theorem rename_inbox : forall uid0 st a0 b0,
+  dinv st -> norm a0 = INBOX ->
+  o_cond (snd (dstep uid0 st (ORename a0 b0))) = COk ->
+  let b := norm b0 in
+  let st' := fst (dstep uid0 st (ORename a0 b0)) in
+  alookup b (d_set st') = Some (d_inbox st)
+  /\ d_inbox st' = fresh uid0 (d_next st)
+  /\ (forall m, m <> b -> alookup m (d_set st') = alookup m (d_set st))
+  /\ ~ in_closure (dnames st) b /\ b <> INBOX.
+Proof. exact d_rename_inbox. Qed.
+Print Assumptions rename_inbox.
+
+(* maildir: every folder keeps its contents; the folders at or below the
+   source get the destination in place of the source prefix (after the missing
+   superiors of the destination were created empty).  RENAME INBOX is refused
+   there (open finding C11-F2). *)
+Theorem rename_moves_subtree_maildir : forall uid0 lay st a0 b0,
+  o_cond (snd (mstep uid0 lay st (ORename a0 b0))) = COk ->
+  let a := norm a0 in let b := norm b0 in
+  let st' := fst (mstep uid0 lay st (ORename a0 b0)) in
+  exists f1 nx,
+    add_superiors uid0 (seq 1 (length (split b) - 1)) (split b) (x_folders st) (x_next st) = (f1, nx)
+    /\ map snd (x_folders st') = map snd f1
+    /\ map fst (x_folders st') = map (move_key a b) (map fst f1)
+    /\ x_inbox st' = x_inbox st /\ x_subs st' = x_subs st
+    /\ a <> INBOX /\ b <> INBOX
+    /\ in_closure (INBOX :: folder_names st) a /\ ~ in_closure (INBOX :: folder_names st) b.
+Proof. exact m_rename_spec. Qed.
+Print Assumptions rename_moves_subtree_maildir.
+
+Theorem move_key_under_source : forall a b k, bprefix a k ->
+  exists rest, Forall nodelim rest /\ k = a ++ sfx rest /\ move_key a b k = b ++ sfx rest.
+Proof. exact move_key_under. Qed.
+Print Assumptions move_key_under_source.
+
+Theorem move_key_elsewhere : forall a b k, ~ bprefix a k -> move_key a b k = k.
+Proof. exact move_key_other. Qed.
+Print Assumptions move_key_elsewhere.
+
+(* ---- INBOX *)
+Theorem inbox_protected : forall uid0 st prog, dinv st ->
+  ~ In INBOX (map fst (d_set (drun uid0 st prog)))
+  /\ (forall n0 b0, norm n0 = INBOX ->
+        forall o, In o [OCreate n0; ODelete n0; ORename b0 n0] ->
+        o_cond (snd (dstep uid0 st o)) <> COk /\ fst (dstep uid0 st o) = st).
+Proof. exact d_inbox_protected. Qed.
+Print Assumptions inbox_protected.
+
+Theorem inbox_contents_kept : forall uid0 st o,
+  (forall a b, o = ORename a b -> norm a <> INBOX) ->
+  (forall n, o = OAppend n -> norm n <> INBOX) ->
+  d_inbox (fst (dstep uid0 st o)) = d_inbox st.
+Proof. exact d_inbox_kept. Qed.
+Print Assumptions inbox_contents_kept.
+
+Theorem inbox_protected_maildir : forall uid0 lay st n0 b0, norm n0 = INBOX ->
+  forall o, In o [OCreate n0; ODelete n0; ORename b0 n0] ->
+  exists k, o_cond (snd (mstep uid0 lay st o)) = CNo k /\ fst (mstep uid0 lay st o) = st.
+Proof. exact m_inbox_guards. Qed.
+Print Assumptions inbox_protected_maildir.
+
+Theorem inbox_contents_kept_maildir : forall uid0 lay st o,
+  (forall n, o = OAppend n -> norm n <> INBOX) ->
+  x_inbox (fst (mstep uid0 lay st o)) = x_inbox st.
+Proof. exact m_inbox_kept. Qed.
+Print Assumptions inbox_contents_kept_maildir.
+
+(* ---- errors *)
+(* whatever is not answered OK changed nothing (dict: any condition) *)
+Theorem error_no_effect : forall uid0 st o,
+  o_cond (snd (dstep uid0 st o)) <> COk -> fst (dstep uid0 st o) = st.
+Proof. exact d_error_no_effect. Qed.
+Print Assumptions error_no_effect.
+
+Theorem error_no_effect_maildir : forall uid0 lay st o k,
+  o_cond (snd (mstep uid0 lay st o)) = CNo k -> fst (mstep uid0 lay st o) = st.
+Proof. exact m_error_no_effect. Qed.
+Print Assumptions error_no_effect_maildir.
+
+(* no command of any program makes the dict model raise: every answer is OK or NO *)
+Theorem no_server_bug : forall uid0 st o, dinv st -> o_cond (snd (dstep uid0 st o)) <> CExc.
+Proof. exact d_no_exc. Qed.
+Print Assumptions no_server_bug.
+
+Theorem invariant_all_programs : forall uid0 prog st, dinv st -> dinv (drun uid0 st prog).
+Proof. exact d_inv_run. Qed.
+Print Assumptions invariant_all_programs.
+
+(* creating an existing name / INBOX is refused, a new name is created empty *)
+Theorem create_spec : forall uid0 st n0,
+  let n := norm n0 in
+  let st' := fst (dstep uid0 st (OCreate n0)) in
+  let out := snd (dstep uid0 st (OCreate n0)) in
+  (n = INBOX \/ In n (map fst (d_set st)) -> o_cond out <> COk /\ st' = st)
+  /\ (n <> INBOX -> ~ In n (map fst (d_set st)) ->
+      o_cond out = COk
+      /\ alookup n (d_set st') = Some (fresh uid0 (d_next st))
+      /\ (forall m, m <> n -> alookup m (d_set st') = alookup m (d_set st))
+      /\ d_inbox st' = d_inbox st /\ d_subs st' = d_subs st).
+Proof. exact d_create_spec. Qed.
+Print Assumptions create_spec.
+
+Theorem delete_spec : forall uid0 st n0, dinv st ->
+  let n := norm n0 in
+  let st' := fst (dstep uid0 st (ODelete n0)) in
+  let out := snd (dstep uid0 st (ODelete n0)) in
+  (n = INBOX \/ ~ In n (map fst (d_set st)) -> o_cond out <> COk /\ st' = st)
+  /\ (n <> INBOX -> In n (map fst (d_set st)) ->
+      o_cond out = COk
+      /\ alookup n (d_set st') = None
+      /\ (forall m, m <> n -> alookup m (d_set st') = alookup m (d_set st))
+      /\ d_inbox st' = d_inbox st /\ d_subs st' = d_subs st).
+Proof. exact d_delete_spec. Qed.
+Print Assumptions delete_spec.
+
+Theorem rename_refused : forall uid0 st a0 b0,
+  norm b0 = INBOX \/ ~ in_closure (dnames st) (norm a0) \/ in_closure (dnames st) (norm b0) ->
+  o_cond (snd (dstep uid0 st (ORename a0 b0))) <> COk /\ fst (dstep uid0 st (ORename a0 b0)) = st.
+Proof. exact d_rename_refused. Qed.
+Print Assumptions rename_refused.
+
+Theorem missing_refused : forall uid0 st n0,
+  norm n0 <> INBOX -> ~ In (norm n0) (map fst (d_set st)) ->
+  forall o, In o [OStatus n0; OSelect n0; OAppend n0] ->
+  o_cond (snd (dstep uid0 st o)) <> COk /\ fst (dstep uid0 st o) = st.
+Proof. exact d_missing_refused. Qed.
+Print Assumptions missing_refused.
+
+(* the invariant is satisfiable: an empty store *)
+Theorem invariant_example : dinv demo_state.
+Proof. exact demo_state_inv. Qed.
+Print Assumptions invariant_example.
